@@ -122,9 +122,12 @@ class HTTPReader:
             if cl_string:
                 try:
                     content_length = int(cl_string)
-                    http_body = http_message.rfile.read(content_length)
                 except TypeError:
                     http_body = http_message.rfile.read()
+                else:
+                    if content_length < 0:  # read(-1) would block until the peer closes the connection
+                        raise ValueError(f'invalid Content-Length {cl_string}')
+                    http_body = http_message.rfile.read(content_length)
 
         # if we get compressed content then we check against server setting
         # if it matches continue and decompress
